@@ -9,6 +9,7 @@ import Rare.Model.Expr.Std
 import Rare.Gen.Tables
 import Rare.Proofs.C08Guards
 import Rare.Proofs.C08Extra
+import Rare.Proofs.C08Loops
 import Rare.Proofs.C11
 import Rare.Model.C02
 import Rare.Gen.C08
@@ -31,6 +32,9 @@ safe argument stages the builder neither panics at compile time nor returns a st
   the guard of the hand model (`repeat_guard_safe`, `substr_bounds_safe`, `select_slices_safe`,
   `slice_bounds_safe`, `precision_guard_safe`, `divi_guard_safe`, `modi_guard_safe`,
   `bucket_guard_safe`, `getmatch_bounds_safe`, `compile_escape_safe`, `bar_guard_safe` and the `…_eq_model` / `…_eq_gen` ties).
+* `expbucket_terminates`, `range_counter_safe`, `range_eq_model`, `for_counter_safe`: the loop condition and the
+  loop body of `kfExpBucket` and the counter guards of `@range` / `@for`, regenerated from /repo as step
+  functions, reach their exit without overflow for every int64 value ("never fails to return" as a theorem).
 * `ext_safe`, `world_compile_eval_total`: `color`, `bar`, `load`, `json` (`Funcs/Extra.lean`) are
   panic-free in every world (any float arithmetic, colour/unicode switches, file system), assuming only
   that the gjson library call returns.
@@ -658,5 +662,116 @@ theorem compile_escape_eq_model (all : List Char) (i : Nat) (hi : i < all.length
 
 example : Gen.C08.compileEscapeGuard 3 4 = false ∧ Gen.C08.compileEscapeGuard 2 4 = true := by decide
 
+
+/-! ## Loops, as regenerated from /repo: the loop condition and the loop body are step functions -/
+
+/-- `k` rounds of the loop body of `kfExpBucket` (the generated `expBucketStep`) from `(val, bucket)`. -/
+def expBucketIter (k : Nat) (val bucket : Int) : Int × Int :=
+  iterate Gen.C08.expBucketStep k (val, bucket)
+
+/-- **The scaling loop of `{expbucket}` returns**: from every int64 value (and `bucket = 1`, as the code
+    enters it) the generated loop condition becomes false after at most 18 rounds – 19 evaluations of
+    the condition –, in every round it does run the product `bucket * 10` is a true int64 product (no
+    wrap-around), it leaves with `bucket = 10^n`, for positive values this is the power of ten that
+    brackets the value, and the fuelled loop of the hand model (`Arith.expBucketVal`) computes exactly
+    this.  The statements around the loop are pinned.  (A loop rewritten as
+    `for bucket*10 <= val { bucket *= 10 }` changes the generated condition and step, and this theorem
+    stops checking: for `val` near `MaxInt64` that loop never exits.) -/
+theorem expbucket_terminates (val : Int) (h : inInt64 val = true) :
+    ∃ n, n ≤ 18 ∧
+      (∀ k, k < n →
+        Gen.C08.expBucketLoopCond (expBucketIter k val 1).1 (expBucketIter k val 1).2 = true ∧
+        1 ≤ (expBucketIter k val 1).2 ∧ (expBucketIter k val 1).2 * 10 ≤ maxInt64) ∧
+      Gen.C08.expBucketLoopCond (expBucketIter n val 1).1 (expBucketIter n val 1).2 = false ∧
+      (expBucketIter n val 1).2 = 10 ^ n ∧
+      (1 ≤ val → (10 : Int) ^ n ≤ val ∧ val < 10 * 10 ^ n ∧
+        Funcs.Arith.expBucketVal val = (expBucketIter n val 1).2) ∧
+      Gen.C08.expBucketShape = ["bucket := 0", "bucket = 1", "bucket *= 10",
+        "val, err := strconv.Atoi(args[0](context))", "val /= 10", "return ErrorNum",
+        "if val > 0 { … for val >= 10 }", "return strconv.Itoa(bucket)"] := by
+  rw [C11.inInt64_iff] at h
+  obtain ⟨n, hn, hrun, hexit, hval, hrange, hmodel⟩ :=
+    expLoop_rounds Gen.C08.expBucketStep (fun _ _ => rfl) 18 val 1
+      (by have := h.2; unfold maxInt64 at this; omega) (by omega) (fun _ => by have := h.2; omega)
+  refine ⟨n, hn, ?_, ?_, ?_, ?_, rfl⟩
+  · intro k hk
+    obtain ⟨a, b, c⟩ := hrun k hk
+    exact ⟨by simpa [Gen.C08.expBucketLoopCond, expBucketIter] using a, b, c⟩
+  · simpa [Gen.C08.expBucketLoopCond, expBucketIter] using hexit
+  · simpa [expBucketIter] using hval
+  · intro h1
+    obtain ⟨r1, r2⟩ := hrange h1
+    refine ⟨r1, r2, ?_⟩
+    have hpos : val > 0 := by omega
+    simp only [Funcs.Arith.expBucketVal, hpos, if_true]
+    exact hmodel 19 (by omega)
+
+example : expBucketIter 18 9223372036854775807 1 = (9, 1000000000000000000) ∧
+    Gen.C08.expBucketLoopCond 9 1000000000000000000 = false ∧
+    expBucketIter 0 (-5) 1 = (-5, 1) ∧ Gen.C08.expBucketLoopCond (-5) 1 = false ∧
+    expBucketIter 2 1234 1 = (12, 100) := by decide
+
+/-- **The counter of `{@range}` cannot overflow**: whenever the generated loop condition holds and the
+    generated `break` condition in front of the post statement does not, `i += incr` is a true int64 sum
+    that moves `i` strictly towards `stop` (so with the round cap the loop returns). -/
+theorem range_counter_safe (i stop incr : Int) (hi : inInt64 i = true) (hs : inInt64 stop = true)
+    (hc : inInt64 incr = true) (hcond : Gen.C08.rangeLoopCond i stop incr = true)
+    (hbrk : Gen.C08.rangeOverflowBreak i incr = false) :
+    Gen.C08.rangeStep i incr = i + incr ∧ inInt64 (i + incr) = true ∧
+    (incr > 0 → i < i + incr) ∧ (incr < 0 → i + incr < i) :=
+  range_step_exact i stop incr hi hs hc hcond hbrk
+
+example : Gen.C08.rangeLoopCond 9223372036854775800 9223372036854775807 5 = true ∧
+    Gen.C08.rangeOverflowBreak 9223372036854775800 5 = false ∧
+    Gen.C08.rangeOverflowBreak 9223372036854775805 5 = true ∧
+    Gen.C08.rangeOverflowBreak (-9223372036854775805) (-5) = true := by decide
+
+/-- One round of the hand model's `@range` loop is the generated condition, round cap, `break`
+    condition and post statement, in the order of the code's loop body. -/
+theorem range_eq_model (fuel : Nat) (i stop incr : Int) (count : Nat) (sb : Funcs.Range.Sb) :
+    Funcs.Range.rangeLoop (fuel + 1) i stop incr count sb =
+      (if Gen.C08.rangeLoopCond i stop incr then
+        let sb' := (if sb.len > 0 then sb.write Funcs.Range.ArraySeparatorString else sb).write (itoa i)
+        if Gen.C08.rangeCountGuard ((count + 1 : Nat) : Int) then .ok none
+        else if Gen.C08.rangeOverflowBreak i incr then .ok (some sb')
+        else Funcs.Range.rangeLoop fuel (Gen.C08.rangeStep i incr) stop incr (count + 1) sb'
+      else .ok (some sb)) ∧
+    Gen.C08.rangeLoopShape = ["init i := start", "if sb.Len() > 0", "call", "count++", "inf-if", "break-if"] := by
+  refine ⟨?_, rfl⟩
+  rw [Funcs.Range.rangeLoop]
+  unfold Gen.C08.rangeLoopCond Gen.C08.rangeCountGuard Gen.C08.rangeOverflowBreak Gen.C08.rangeStep
+  have e : (decide (((count + 1 : Nat) : Int) > 1000000)) = decide (count + 1 > Gen.maxIterations) := by
+    unfold Gen.maxIterations
+    by_cases h : count + 1 > 1000000
+    · have : ((count + 1 : Nat) : Int) > 1000000 := by omega
+      rw [decide_eq_true h, decide_eq_true this]
+    · have : ¬ ((count + 1 : Nat) : Int) > 1000000 := by omega
+      rw [decide_eq_false h, decide_eq_false this]
+  simp only [e, decide_eq_true_eq]
+
+/-- **The round counters of `{@for}` and `{@range}` cannot overflow**: both loops give up (`<INF>`) as soon as
+    the counter exceeds `MAX_ITERATIONS`, so `idx++` / `count++` are only ever executed on values
+    `≤ MAX_ITERATIONS`; the cap is the one of the hand model. -/
+theorem for_counter_safe (idx : Int) (h0 : 0 ≤ idx) :
+    (Gen.C08.forCountGuard idx = false → idx ≤ Gen.maxIterations ∧ wrap64 (idx + 1) = idx + 1) ∧
+    (Gen.C08.rangeCountGuard idx = false → idx ≤ Gen.maxIterations ∧ wrap64 (idx + 1) = idx + 1) ∧
+    Gen.C08.forCountGuard idx = decide (idx > (Gen.maxIterations : Int)) ∧
+    Gen.C08.rangeCountGuard idx = decide (idx > (Gen.maxIterations : Int)) ∧
+    Gen.C08.forCounterShape = ["idx := 0", "idx++"] := by
+  refine ⟨?_, ?_, rfl, rfl, rfl⟩
+  · intro h
+    unfold Gen.C08.forCountGuard at h
+    simp only [decide_eq_false_iff_not, Int.not_lt] at h
+    unfold Gen.maxIterations
+    refine ⟨by omega, ?_⟩
+    unfold wrap64; omega
+  · intro h
+    unfold Gen.C08.rangeCountGuard at h
+    simp only [decide_eq_false_iff_not, Int.not_lt] at h
+    unfold Gen.maxIterations
+    refine ⟨by omega, ?_⟩
+    unfold wrap64; omega
+
+example : Gen.C08.forCountGuard 1000000 = false ∧ Gen.C08.forCountGuard 1000001 = true := by decide
 
 end Rare.C08
